@@ -194,6 +194,26 @@ fn run_multi(c: &MultiFaultCase) -> CaseResult {
     Ok(v)
 }
 
+fn decode_fault(u: &mut FuzzInput) -> Fault {
+    Fault { sel: u.u16(), mode: u.n(2) as u8, kind: u.n(2) as u8 }
+}
+
+fn decode_c18_single(u: &mut FuzzInput) -> SingleCase {
+    let fault = decode_fault(u);
+    SingleCase { bar: c01::decode_case(u), fault }
+}
+
+fn decode_c18_multi(u: &mut FuzzInput) -> MultiFaultCase {
+    let fault = decode_fault(u);
+    let mut multi = decode_multi(u, 0);
+    for _ in 0..u.n(2) {
+        let at = u.n(multi.ops.len());
+        let sel = u.u16();
+        multi.ops.insert(at, MOp::Detach(sel));
+    }
+    MultiFaultCase { multi, fault }
+}
+
 pub fn property() -> Property {
     let w = default_workers();
     Property {
@@ -214,6 +234,7 @@ pub fn property() -> Property {
                 signature: no_signature,
                 essential: &["set_tab_width", "suspend", "println", "finish", "draw", "drop"],
                 workers: w,
+                decode: Some(decode_c18_single),
             }),
             Box::new(Gen::<MultiFaultCase> {
                 name: "multi",
@@ -235,6 +256,7 @@ pub fn property() -> Property {
                 signature: no_signature,
                 essential: &["set_tab_width", "suspend", "println", "clear", "finish", "draw", "drop", "set_draw_target"],
                 workers: w,
+                decode: Some(decode_c18_multi),
             }),
         ],
     }
